@@ -28,7 +28,7 @@ abbrev F2 := Val → Val → Except Err Val
 
 /-! primitive stages with both implementations -/
 def map (f : F1) : Stage := .prim (mapOp f) (some (pMap f))
-def filter (p : F1) : Stage := .prim (filterOp p Val.isTrue) (some (pFilter p Val.truthy))
+def filter (p : F1) : Stage := .prim (filterOp p Val.truthy) (some (pFilter p Val.truthy))
 def flatMap : Stage :=
   let el := fun (v : Val) => (v.elems).getD []
   .prim (flatMapOp el) (some (pFlatMap el))
@@ -48,7 +48,7 @@ def assertS (p : F1) : Stage :=
   let pb : Val → Except Err Bool := fun v => (p v).map Val.isTrue
   .prim (assertOp pb "ValueError") (some (pAssert pb "ValueError"))
 def assert1 (p : Val → Val → Bool) : Stage :=
-  .prim (assert1Op p "ValueError") (some (pAssert1 p "ValueError" (fun v => v = .none)))
+  .prim (assert1Op p "ValueError") (some (pAssert1 p "ValueError"))
 def ignore : Stage := .prim ignoreOp none
 def errMap (f : Err → Except Err Val) : Stage := .prim (mapErrOp f) none
 def toListPlain : PlainOp Val Val := pToList Val.lst
